@@ -150,7 +150,7 @@ impl Property for C02 {
     }
 
     fn budget(tier: Tier) -> u64 {
-        tier.pick(40_000, 1_000_000)
+        tier.pick(40_000, 800_000)
     }
 
     fn rule() -> &'static str {
